@@ -36,4 +36,6 @@ e4b9b0e C15 foreign_transaction_pdu C15
 b8ed225 C14 ignored_rejection_then_checksum C14.raises_after_ignored_fault
 1cc1f6a C13 metadata_only_closure_no_check_timer C13
 74a76bf C04 abandon_condition_after_user_cancel C04.abandon_condition
+5bea313 C17 rename_mkdir_missing_parent_raises C17.unexpected_exception
+d4e5600 C12 put_after_cancel_hides_eof C12.b_eof_hidden
 LIST
